@@ -2,7 +2,7 @@
 
    The two implementations
      * Python  FFI.init_once          /repo/src/cffi/api.py:724      (regenerated: C26/Gen.v `py_prog`)
-     * C       ffi_init_once          /repo/src/c/ffi_obj.c:986      (hand model below: `c_prog`)
+     * C       ffi_init_once          /repo/src/c/ffi_obj.c:988      (`c_prog` below; regenerated copy: C26/Gen.v `c_prog_gen`)
    are both expressed as a control-flow graph over ONE instruction set whose instructions are
    the operations on the shared state (the per-FFI cache dict, the per-tag lock, the user
    function f) plus the thread-local tests/returns.  One instruction = one atomic step; a
@@ -57,6 +57,23 @@ Record state := mkSt { th : nat -> tl; cache : cachev; owner : nat -> option nat
 
 Definition tl0 : tl := mkTl (At 0) XNone None None false 0.
 Definition init : state := mkSt (fun _ => tl0) Absent (fun _ => None) 0 0.
+
+(* The state of a tag of a freshly created FFI object, as a function of two facts about the
+   implementation's constructor that are REGENERATED from the source into C26/Gen.v:
+     created_empty  : the per-FFI cache is created as an empty dict (api.py FFI.__init__
+                      `self._init_once_cache = {}` ; ffi_obj.c `init_once_cache = NULL` then PyDict_New()),
+                      and nothing else ever assigns it;
+     lock_unlocked  : the lock put into a new entry is a fresh, unlocked thread lock
+                      (api.py `allocate_lock()` from _thread ; ffi_obj.c PyThread_allocate_lock()).
+   If the cache is not created empty, some tag already has an entry that no f produced: modelled
+   as `Done 0` with ndone = 0 (for instance a module __dict__ has '__name__': the first call
+   returns without running f).  If the lock were created locked, lock 0 has an owner that is no
+   caller (`Some 0` with held = None).  Either way the invariant fails in the initial state: the
+   theorems about an implementation (C26/Impl.v `ireach`) start from `init_of`, so a false fact
+   breaks their base case. *)
+Definition init_of (created_empty lock_unlocked : bool) : state :=
+  mkSt (fun _ => tl0) (if created_empty then Absent else Done 0%Z)
+       (fun l => if lock_unlocked then None else Some 0) 0 0.
 
 Definition setth (s : state) (t : nat) (l : tl) : nat -> tl :=
   fun t' => if Nat.eqb t' t then l else th s t'.
@@ -186,7 +203,7 @@ Inductive reach (p : prog) : state -> Prop :=
    of one tag's component; `t` then names a call on that tag (a thread that calls init_once for
    several tags, also nested from inside an f, is a different caller in each component). *)
 Definition mstate := nat -> state.
-Definition minit : mstate := fun _ => init.
+Definition minit : mstate := fun _ => init.        (* no entry for EVERY tag *)
 Definition mupd (S : mstate) (tag : nat) (s : state) : mstate :=
   fun tag' => if Nat.eqb tag' tag then s else S tag'.
 Inductive mreach (p : prog) : mstate -> Prop :=
@@ -228,23 +245,24 @@ Definition rank (p : prog) (c : pcv) : nat :=
   | _ => 0
   end.
 
-(* ---- the C implementation, src/c/ffi_obj.c ffi_init_once (line numbers of the pinned commit) *)
+(* ---- the C implementation, src/c/ffi_obj.c ffi_init_once (line numbers of /repo HEAD 2d93229; the
+   same list is regenerated from the source as C26/Gen.v `c_prog_gen`, with the current lines) *)
 Definition c_prog : prog := [
-  (*  0 *) IRead 2 1;        (* 1014 PyDict_GetItemRef(cache, tag, &tup); tup == NULL -> 1 *)
-  (*  1 *) ISetDefault 2;    (* 1017-1037 new lock, tup = cache.setdefault(tag, (False, lock)) *)
+  (*  0 *) IRead 2 1;        (* 1013 PyDict_GetItemRef(cache, tag, &tup); tup == NULL -> 1 *)
+  (*  1 *) ISetDefault 2;    (* 1017-1034 new lock, tup = cache.setdefault(tag, (False, lock)) *)
   (*  2 *) IIfDone 3 4;      (* 1043 if (PyTuple_GET_ITEM(tup, 0) == Py_True) *)
   (*  3 *) IRetX;            (* 1046 return res *)
-  (*  4 *) IAcquire 5;       (* 1060-1062 Py_BEGIN_ALLOW_THREADS PyThread_acquire_lock(lock, WAIT_LOCK) *)
-  (*  5 *) IRead 6 9;        (* 1064 x = PyDict_GetItem(cache, tag); x == NULL -> else branch *)
-  (*  6 *) IIfDone 7 9;      (* 1065 x != NULL && PyTuple_GET_ITEM(x, 0) == Py_True *)
-  (*  7 *) IRelease 8;       (* 1080 PyThread_release_lock(lock) on the path res = x[1] *)
-  (*  8 *) IRetX;            (* 1082 return res *)
-  (*  9 *) ICallF 10 13;     (* 1072 res = PyObject_CallFunction(func, "") *)
-  (* 10 *) IStore 11;        (* 1074-1075 PyDict_SetItem(cache, tag, (True, res)) *)
-  (* 11 *) IRelease 12;      (* 1080 PyThread_release_lock(lock) *)
-  (* 12 *) IRetResult;       (* 1082 return res *)
-  (* 13 *) IRelease 14;      (* 1080 PyThread_release_lock(lock) with res == NULL *)
-  (* 14 *) IRaise FExn       (* 1082 return NULL *)
+  (*  4 *) IAcquire 5;       (* 1059-1061 Py_BEGIN_ALLOW_THREADS PyThread_acquire_lock(lock, WAIT_LOCK) *)
+  (*  5 *) IRead 6 9;        (* 1063 x = PyDict_GetItem(cache, tag); x == NULL -> else branch *)
+  (*  6 *) IIfDone 7 9;      (* 1064 x != NULL && PyTuple_GET_ITEM(x, 0) == Py_True *)
+  (*  7 *) IRelease 8;       (* 1082 PyThread_release_lock(lock) on the path res = x[1] *)
+  (*  8 *) IRetX;            (* 1084 return res *)
+  (*  9 *) ICallF 10 13;     (* 1071 res = PyObject_CallFunction(func, "") *)
+  (* 10 *) IStore 11;        (* 1073-1074 PyDict_SetItem(cache, tag, (True, res)) *)
+  (* 11 *) IRelease 12;      (* 1082 PyThread_release_lock(lock) *)
+  (* 12 *) IRetResult;       (* 1084 return res *)
+  (* 13 *) IRelease 14;      (* 1082 PyThread_release_lock(lock) with res == NULL *)
+  (* 14 *) IRaise FExn       (* 1084 return NULL *)
 ].
 
 (* ---- executable runner for the correspondence harness.
